@@ -60,6 +60,7 @@ func C13(c *Ctx) {
 	r.Rule("C13-f", "every non-constant index into a fixed-size array in the generator is provably in range: the index is a variable bounded by an enclosing `< len` condition (if or loop), or unicode.ToUpper/ToLower of such a variable when the bound is 128 (case mapping of an ASCII rune stays ASCII; unicode.SimpleFold does not)")
 	r.Rule("C13-g", "counter loops of the generator are well-formed: a loop whose condition is `i < len(X)` (or `i < K`, `j < K && …`) starts from a value not above the bound's domain and steps upwards (i++, i += k); a loop with condition `i >= 0` steps downwards; so each terminates and indexes X[i] (and X[i+1] for stride 2 over a pair list) in range")
 	r.Rule("C13-h", "inlining by -optimize-grammar terminates: a rule reference is replaced by a clone of the rule only if the rule is defined and has no entry in ruleUsesRules, and that map records every reference of every rule (self references included) unconditionally - so the clone contains no reference and cannot be inlined again")
+	r.Rule("C13-i", "no store into a possibly nil map: every `m[k] = v` in the generator whose m is a local map variable has only definitions that yield a non-nil map (make, a map literal, or a call to a function of the package all of whose returns are such values); parameters, fields and map elements are the owner's responsibility and are covered by the rules of their owner")
 	r.Rule("C13-c", "main passes Recover(!*noRecoverFlag) to ParseReader")
 
 	g := c.G()
@@ -110,6 +111,7 @@ func C13(c *Ctx) {
 	c13CounterLoops(c, g)
 	optimizerInlining(c, g, "C13-h")
 	c13IO(c, g)
+	c13NilMaps(c, g)
 	c13Exit(c, g)
 	if c.Thorough() {
 		c13CrossRef(c, g)
@@ -1194,4 +1196,176 @@ func c13IO(c *Ctx, g *load.G) {
 		}
 		r.Check(ok, "C13-b", "G.main."+spec.fn+":file-iff-named", "", g.Where(fd.Pos()), spec.call+" exactly when a file name was given", detail)
 	}
+}
+
+// c13NilMaps (C13-i).
+func c13NilMaps(c *Ctx, g *load.G) {
+	r := c.R
+	n := 0
+	for _, suffix := range []string{"ast", "builder"} {
+		pkg := g.Pkg(suffix)
+		if pkg == nil {
+			continue
+		}
+		info := pkg.TypesInfo
+		// fresh-returning functions: every return yields make(...) / a map literal / a local that is itself fresh
+		decls := load.AllFuncDecls(pkg)
+		var freshExpr func(fd *ast.FuncDecl, e ast.Expr, depth int) bool
+		localDefs := func(fd *ast.FuncDecl, obj types.Object) []ast.Expr {
+			var out []ast.Expr
+			ast.Inspect(fd, func(nd ast.Node) bool {
+				switch x := nd.(type) {
+				case *ast.AssignStmt:
+					for i, l := range x.Lhs {
+						id, ok := l.(*ast.Ident)
+						if !ok || info.ObjectOf(id) != obj {
+							continue
+						}
+						if len(x.Rhs) == len(x.Lhs) {
+							out = append(out, x.Rhs[i])
+						} else {
+							out = append(out, x.Rhs[0])
+						}
+					}
+				case *ast.ValueSpec:
+					for i, nm := range x.Names {
+						if info.ObjectOf(nm) != obj {
+							continue
+						}
+						if i < len(x.Values) {
+							out = append(out, x.Values[i])
+						} else {
+							out = append(out, nil) // declared without value: nil map
+						}
+					}
+				}
+				return true
+			})
+			return out
+		}
+		freshFunc := map[string]int{} // 0 unknown, 1 fresh, 2 not
+		var isFreshFunc func(name string, depth int) bool
+		isFreshFunc = func(name string, depth int) bool {
+			if v := freshFunc[name]; v != 0 {
+				return v == 1
+			}
+			if depth > 4 {
+				return false
+			}
+			freshFunc[name] = 1 // coinductive assumption for recursion
+			found := false
+			ok := true
+			for _, fd := range decls {
+				if fd.Name.Name != name || fd.Body == nil {
+					continue
+				}
+				found = true
+				for _, rs := range returnsOf(fd) {
+					if len(rs.Results) == 0 {
+						ok = false // named results: not analysed
+						continue
+					}
+					if !freshExpr(fd, rs.Results[0], depth+1) {
+						ok = false
+					}
+				}
+			}
+			if !found || !ok {
+				freshFunc[name] = 2
+				return false
+			}
+			return true
+		}
+		freshExpr = func(fd *ast.FuncDecl, e ast.Expr, depth int) bool {
+			switch x := e.(type) {
+			case nil:
+				return false
+			case *ast.ParenExpr:
+				return freshExpr(fd, x.X, depth)
+			case *ast.CompositeLit:
+				return true
+			case *ast.CallExpr:
+				if id, ok := x.Fun.(*ast.Ident); ok && id.Name == "make" {
+					return true
+				}
+				return isFreshFunc(callSel(x), depth)
+			case *ast.Ident:
+				obj := info.ObjectOf(x)
+				if obj == nil || x.Name == "nil" {
+					return false
+				}
+				if obj.Parent() == pkg.Types.Scope() {
+					// package-level variable: shared, and nil unless initialised
+					return false
+				}
+				defs := localDefs(fd, obj)
+				if len(defs) == 0 {
+					return false // parameter
+				}
+				for _, d := range defs {
+					if !freshExpr(fd, d, depth+1) {
+						return false
+					}
+				}
+				return true
+			}
+			return false
+		}
+		for _, fd := range decls {
+			if fd.Body == nil {
+				continue
+			}
+			ast.Inspect(fd.Body, func(nd ast.Node) bool {
+				as, ok := nd.(*ast.AssignStmt)
+				if !ok {
+					return true
+				}
+				for _, l := range as.Lhs {
+					ix, ok := l.(*ast.IndexExpr)
+					if !ok {
+						continue
+					}
+					tv, ok := info.Types[ix.X]
+					if !ok {
+						continue
+					}
+					if _, isMap := tv.Type.Underlying().(*types.Map); !isMap {
+						continue
+					}
+					id, ok := ix.X.(*ast.Ident)
+					if !ok {
+						continue // field or element: owner's responsibility
+					}
+					obj := info.ObjectOf(id)
+					if obj == nil {
+						continue
+					}
+					construct := "G." + suffix + "." + load.RecvName(fd) + "." + fd.Name.Name + ":map-store " + id.Name
+					if obj.Parent() == pkg.Types.Scope() {
+						n++
+						r.Bad("C13-i", construct, "", g.Where(as.Pos()), "store into the package-level map "+id.Name+" (shared between builds, nil unless initialised)")
+						continue
+					}
+					defs := localDefs(fd, obj)
+					if len(defs) == 0 {
+						continue // parameter or closure-captured from an enclosing declaration handled below
+					}
+					n++
+					bad := ""
+					for _, d := range defs {
+						if !freshExpr(fd, d, 0) {
+							if d == nil {
+								bad = "declared without a value (nil map)"
+							} else {
+								bad = "defined as " + abbreviate(nospace(d)) + ", which is not provably a fresh non-nil map (make, a literal, or a function of the package returning only such values)"
+							}
+						}
+					}
+					r.Check(bad == "", "C13-i", construct, "", g.Where(as.Pos()), "all definitions yield a fresh non-nil map", id.Name+" is "+bad+": the store panics with `assignment to entry in nil map` or writes into a map other nodes share")
+				}
+				return true
+			})
+		}
+	}
+	r.Min("C13-i map stores into locals", 12, n)
 }
